@@ -344,6 +344,11 @@ class Result:
 
     def dev(self, key, v):
         v = float(v)
+        if v != v:
+            # a NaN deviation makes every `dev > tol` comparison False: remember it, the runner turns it into a finding
+            # for the case unless the case reported one itself
+            self.nan_devs = getattr(self, "nan_devs", [])
+            self.nan_devs.append(key)
         if not math.isfinite(v):
             v = 1e300
         if key not in self.max_dev or v > self.max_dev[key]:
